@@ -209,7 +209,7 @@ def prop_tables(ctx):
         styles = [s for s in _style_literals(fn) if s != 'hybrid']
         ctx.floor('PROP-TABLE/%s styles' % name, len(styles), floor)
         used_keys = {}
-        for st in styles + ['hybrid charge sphere', 'hybrid sphere dipole']:
+        for st in styles + ['hybrid charge sphere', 'hybrid sphere dipole', 'hybrid charge dipole', 'hybrid sphere peri ellipsoid']:
             try:
                 tab, sm = eval_table(ctx, rel, name, st, 'UQ')
             except WouldRaise as e:
@@ -275,7 +275,7 @@ def prop_tables(ctx):
             missing = [(us, k) for us in nonlj for k in sorted(keys) if k not in keys_by[us] and (us, k) not in EXEMPT]
             ctx.ob('UNIT-KEYS', loc, '%s: every unit key used (%s) is defined by every non-lj unit style' % (st, ', '.join(sorted(keys)) or 'none'), not missing,
                    'undefined: %s' % missing, node=fn, key=st + ' keys')
-    ctx.floor('PROP-TABLE', n_inst, 40)
+    ctx.floor('PROP-TABLE', n_inst, 44)
 
 
 # ------------------------------------------------------------------ model system
